@@ -424,7 +424,9 @@ def fail_text(j, eng, f):
 
 def execute(jobs, engines, ck, workdir, mutate=None):
     exe = build_harness()
+    t0 = time.time()
     res = chunked_run(exe, jobs, engines, workdir)
+    t1 = time.time()
     engs = []
     for e in engines.split():
         engs += ["L", "l"] if e == "L" else [e]
@@ -449,6 +451,7 @@ def execute(jobs, engines, ck, workdir, mutate=None):
                 evs += e3
                 index[(j["jid"], eng)] = j
     fails, nst = validate(evs, workdir)
+    vlib.log("  c06: %d executions in %.1fs, %d events validated by TraceABI in %.1fs" % (nexec, t1 - t0, len(evs), time.time() - t1))
     return nexec, nst, len(evs), fails, index, hard
 
 
